@@ -10,6 +10,7 @@ import (
 	"strings"
 	"testing"
 
+	"golang.org/x/perf/benchfmt"
 	mc "golang.org/x/perf/internal/verifmc"
 	ref "golang.org/x/perf/internal/verifref"
 )
@@ -29,6 +30,7 @@ var c08Results = []presult{
 	{"X/k=1", [][3]string{{"goos", "windows", "f"}, {"extra", "e", "f"}}, []string{"u1", "u2"}},
 	{"X", [][3]string{{"extra", "e", "f"}}, []string{"u1"}},
 	{"X/k=1-4", [][3]string{{"goos", "linux", "f"}}, []string{"u1"}},
+	{"X", [][3]string{{"goos", "plan9", "f"}}, []string{"u1"}}, // same length as "linux": in-place value reuse
 }
 
 var c08Exprs = []string{".config", ".fullname", ".name", "/k", "/gomaxprocs", "goos", "pkg", ".file"}
@@ -38,9 +40,93 @@ type c08Case struct {
 	Results []int
 }
 
+// resultSource hands out the results of a stream either as freshly built
+// Results or — as benchstat and benchseries do — as the one reused Result of a
+// Reader reading a text that encodes the stream (values and names then live in
+// buffers that are overwritten in place from one result to the next).
+type resultSource struct {
+	rd *benchfmt.Reader
+}
+
+func streamText(stream []int) string {
+	var b strings.Builder
+	cur := map[string]string{}
+	for i, ri := range stream {
+		r := c08Results[ri]
+		want := map[string]string{}
+		for _, c := range r.Cfg {
+			if c[2] == "f" {
+				want[c[0]] = c[1]
+			}
+		}
+		var gone []string
+		for k := range cur {
+			if _, ok := want[k]; !ok {
+				gone = append(gone, k)
+			}
+		}
+		sort.Strings(gone)
+		for _, k := range gone {
+			fmt.Fprintf(&b, "%s:\n", k)
+			delete(cur, k)
+		}
+		for _, c := range r.Cfg {
+			if c[2] == "f" && cur[c[0]] != c[1] {
+				fmt.Fprintf(&b, "%s: %s\n", c[0], c[1])
+				cur[c[0]] = c[1]
+			}
+		}
+		fmt.Fprintf(&b, "Benchmark%s 1", r.Name)
+		for j, u := range r.Units {
+			fmt.Fprintf(&b, " %d %s", i*10+j+1, u)
+		}
+		b.WriteString("\n")
+	}
+	return b.String()
+}
+
+func newResultSource(stream []int, viaReader bool) *resultSource {
+	if !viaReader {
+		return &resultSource{}
+	}
+	return &resultSource{rd: benchfmt.NewReader(strings.NewReader(streamText(stream)), "stream")}
+}
+
+// next returns result number n of the stream.
+func (s *resultSource) next(r presult) (*benchfmt.Result, string) {
+	if s.rd == nil {
+		return r.build(), ""
+	}
+	if !s.rd.Scan() {
+		return nil, "reader stream ended early"
+	}
+	res, ok := s.rd.Result().(*benchfmt.Result)
+	if !ok {
+		return nil, fmt.Sprintf("reader stream: %v", s.rd.Result())
+	}
+	// tool-internal keys are set by the tool on the reader's result
+	res.SetConfig(".file", r.cfg(".file"))
+	if string(res.Name) != r.Name {
+		return nil, fmt.Sprintf("reader stream out of step: %q vs %q", res.Name, r.Name)
+	}
+	return res, ""
+}
+
 // c08Run parses exprs in order with one parser, takes the residue, projects
 // the stream and checks the invariants of the property after every result.
 func c08Run(exprs []string, stream []int, canon *mc.Canon) (key, msg string) {
+	key, msg = c08RunFrom(exprs, stream, canon, false)
+	if msg != "" {
+		return key, msg
+	}
+	if _, m := c08RunFrom(exprs, stream, nil, true); m != "" {
+		return key, "results taken directly from a Reader: " + m
+	}
+	return key, ""
+}
+
+func c08RunFrom(exprs []string, stream []int, canon *mc.Canon, viaReader bool) (key, msg string) {
+	src := newResultSource(stream, viaReader)
 	var pp ProjectionParser
 	var projs []*Projection
 	for _, e := range exprs {
@@ -61,7 +147,10 @@ func c08Run(exprs []string, stream []int, canon *mc.Canon) (key, msg string) {
 	keys := make([][]Key, len(projs)) // keys[pi][i] obtained when result i was projected
 	for n, ri := range stream {
 		r := c08Results[ri]
-		res := r.build()
+		res, serr := src.next(r)
+		if serr != "" {
+			return "", serr
+		}
 		for pi, p := range projs {
 			k := p.Project(res)
 			if k.Projection() != p {
